@@ -18,6 +18,18 @@ Module Gen := RV.gen.GenOsCallGraph.
 Theorem C12_propagates : forall (o : os) (d : deriv), host_supplies o d -> effective_os d = o.
 Proof. exact propagates. Qed.
 
+(* Whichever OS the host supplied for THIS evaluation is the one that serves it: an OS placed on a context replaces the
+   one the context carried (a per-request OS layered over a base context; a host builtin that starts a nested
+   evaluation under an OS of its own on the context it was called with, at any nesting depth). *)
+Theorem C12_layered_context_last_wins : forall (ls : list os) (o : os), ctx_of_layers (ls ++ [o]) = Some o.
+Proof. exact layers_last_wins. Qed.
+Theorem C12_nested_evaluation_own_os : forall (d : deriv) (o : os) (v : option os), effective_os (Nest d (Some o) v) = o.
+Proof. exact nested_layer_wins. Qed.
+Example C12_hyp_nested : host_supplies 9 (Spawn (Nest (Import (Nest (Top (Some 7) None) (Some 8) None)) (Some 9) (Some 7))).
+Proof. simpl. reflexivity. Qed.
+Example C12_nested_inherits : effective_os (Nest (Top (Some 7) None) None (Some 9)) = 7.
+Proof. reflexivity. Qed.
+
 (* Script-level steps (spawn, clone call, import, callback) never change which OS is seen. *)
 Theorem C12_script_steps_keep_os : forall d,
   effective_os (Spawn d) = effective_os d /\ effective_os (CloneSync d) = effective_os d /\
